@@ -146,6 +146,10 @@ func (p *FloatingIPPlugin) allocateIP(key string, nodeName string, pod *corev1.P
 		if err != nil {
 			return nil, fmt.Errorf("failed to query floating ip by key %s: %v", key, err)
 		}
+		if len(ipInfos) == 0 {
+			// released or dropped by a configuration reload since it was allocated above
+			return nil, fmt.Errorf("ip allocated to %s is gone, retry later", key)
+		}
 	}
 	for _, ipInfo := range ipInfos {
 		if ipInfo == nil {
